@@ -42,6 +42,10 @@ static inline void PropertyHDF5_removeAttr(PropertyHDF5 *self, const char *name)
 { gh_attr_removes++; }
 static inline bool PropertyHDF5_hasAttr(const PropertyHDF5 *self, const char *name)
 { return true; }
+static inline void DataSet_removeAttr(DataSet *d, const char *name)
+{ gh_attr_removes++; }
+static inline bool DataSet_hasAttr(const DataSet *d, const char *name)
+{ return true; }
 void PropertyHDF5_deleteValues(PropertyHDF5 *self)
 __CPROVER_requires(__CPROVER_is_fresh(self, sizeof(PropertyHDF5)) && gh_extent_calls == 0 && gh_attr_removes == 0 && nix_exc == EXC_NONE)
 __CPROVER_ensures(/*the-values-are-emptied*/ gh_extent_calls == 1 && gh_extent_n == 0)
